@@ -381,6 +381,15 @@ class LoopContract:
         """Hook after a `break`."""
 
 
+class BlockContract:
+    """Statement contract: the body of an `if <test>:` statement is replaced by its contract.  `apply(L)` may modify heap
+    objects reachable from the locals `L` in place (the frame of the block) and returns new values for the local names the
+    block assigns; names it does not return become Poison (reading them later is a modelling error, not a proof)."""
+
+    def apply(self, L) -> dict:
+        return {}
+
+
 class Poison:
     """Value of a local that the loop invariant says nothing about."""
 
@@ -396,6 +405,8 @@ class Poison:
 class _Runtime:
     def __init__(self):
         self.contracts = {}
+        self.kept = {}
+        self.targets = {}
         self.from_pyvc = True
 
     def loop_enter(self, lid, it, L):
@@ -407,14 +418,51 @@ class _Runtime:
         c = self.contracts[lid]
         new = c.havoc(dict(L), it) or {}
         out = []
+        kept = {}
         for n in names:
             if n in new:
                 out.append(new[n])
             elif n in L:
                 out.append(L[n])
+                kept[n] = (L[n], L[n].clone() if isinstance(L[n], symtorch.T) else L[n])
             else:
                 out.append(Poison(n))
+        # locals the body may modify but the contract does not havoc are thereby claimed loop-invariant: checked at the back edge
+        for t in self.targets.get(lid, ()):
+            kept.pop(t, None)  # the loop target is rebound by the loop itself
+        self.kept[lid] = kept
         return tuple(out) if len(out) != 1 else (out[0],)
+
+    def _frame(self, lid, L):
+        from .explore import oblige
+
+        unchecked = getattr(self.contracts[lid], "frame_unchecked", ())
+        for n, (obj, snap) in self.kept.get(lid, {}).items():
+            if n in unchecked:
+                continue
+            cur = L.get(n, None)
+            same = True
+            if isinstance(snap, symtorch.T):
+                if not isinstance(cur, symtorch.T) or cur.a.shape != snap.a.shape:
+                    same = False
+                else:
+                    for x, y in zip(cur.a.reshape(-1), snap.a.reshape(-1)):
+                        if isinstance(x, Sym) or isinstance(y, Sym):
+                            if E.node_of(x) is not E.node_of(y):
+                                same = False
+                                break
+                        elif x != y:
+                            same = False
+                            break
+            elif isinstance(snap, (builtins.int, builtins.float, builtins.bool, str, type(None), Sym)):
+                if isinstance(snap, Sym) or isinstance(cur, Sym):
+                    same = isinstance(cur, Sym) and isinstance(snap, Sym) and cur.n is snap.n
+                else:
+                    same = cur == snap and type(cur) is type(snap)
+            else:
+                continue  # opaque objects (writers, dicts): outside this frame check
+            if not same:
+                oblige("loop-cut.frame.local-'%s'-is-changed-by-the-body-but-not-described-by-the-invariant" % n, E.FALSE)
 
     def loop_guard(self, lid, it, L):
         return builtins.bool(self.contracts[lid].guard(dict(L), it))
@@ -426,6 +474,7 @@ class _Runtime:
         from .explore import PathEnd
 
         self.contracts[lid].back(dict(L))
+        self._frame(lid, L)
         raise PathEnd()
 
     def loop_break(self, lid, it, L):
@@ -434,18 +483,85 @@ class _Runtime:
     def loop_exit(self, lid, it, L):
         self.contracts[lid].exit(dict(L))
 
+    def block_apply(self, bid, names, L):
+        new = self.contracts[bid].apply(dict(L)) or {}
+        out = []
+        for n in names:
+            if n in new:
+                out.append(new[n])
+            elif n in L:
+                out.append(L[n])  # existing object: modified in place by the contract, or left as it is (the contract's frame)
+            else:
+                out.append(Poison(n))
+        return tuple(out)
+
 
 RUNTIME = _Runtime()
 
 
+def _base_name(node):
+    while isinstance(node, (ast.Subscript, ast.Attribute, ast.Starred)):
+        node = node.value
+    return node.id if isinstance(node, ast.Name) else None
+
+
 def _stored_names(nodes):
+    """Local names a statement list may change: rebinding (x = ...), in-place stores through the name (x[i] = ..., x.a = ...,
+    x += ...) and calls of in-place tensor methods on it (x.zero_(), x.copy_(...))."""
     names = []
+
+    def add(n):
+        if n is not None and n not in names:
+            names.append(n)
+
     for node in nodes:
         for sub in ast.walk(node):
             if isinstance(sub, ast.Name) and isinstance(sub.ctx, (ast.Store, ast.Del)):
-                if sub.id not in names:
-                    names.append(sub.id)
+                add(sub.id)
+            elif isinstance(sub, (ast.Subscript, ast.Attribute)) and isinstance(sub.ctx, (ast.Store, ast.Del)):
+                b = _base_name(sub)
+                if b != "self":
+                    add(b)
+            elif isinstance(sub, ast.AugAssign):
+                b = _base_name(sub.target)
+                if b != "self":
+                    add(b)
+            elif isinstance(sub, ast.Call) and isinstance(sub.func, ast.Attribute) and sub.func.attr.endswith("_") and not sub.func.attr.startswith("_"):
+                b = _base_name(sub.func.value)
+                if b != "self":
+                    add(b)
     return names
+
+
+class _BlockCutter(ast.NodeTransformer):
+    def __init__(self, blocks):
+        self.blocks = blocks  # normalised test text of an `if` -> block id
+        self.blocks_found = {}
+        self.depth = 0
+
+    def visit_FunctionDef(self, node):
+        self.depth += 1
+        if self.depth == 1:
+            self.generic_visit(node)
+        self.depth -= 1
+        return node
+
+    def visit_If(self, node):
+        key = ast.unparse(node.test).replace(" ", "")
+        if key in self.blocks:
+            bid = self.blocks[key]
+            self.blocks_found[key] = self.blocks_found.get(key, 0) + 1
+            names = [n for n in _stored_names(node.body) if not n.startswith("__pyvc")]
+            call = ast.Call(ast.Attribute(ast.Name("__pyvc__", ast.Load()), "block_apply", ast.Load()),
+                            [ast.Constant(bid), ast.Constant(tuple(names)), ast.Call(ast.Name("locals", ast.Load()), [], [])], [])
+            if names:
+                body = [ast.Assign([ast.Tuple([ast.Name(n, ast.Store()) for n in names], ast.Store())], call)]
+            else:
+                body = [ast.Expr(call)]
+            new = ast.If(node.test, body, [self.visit(x) for x in node.orelse])
+            return ast.copy_location(new, node)
+        self.generic_visit(node)
+        return node
 
 
 class _Cutter(ast.NodeTransformer):
@@ -483,6 +599,10 @@ class _Cutter(ast.NodeTransformer):
         self.found[my] = ast.unparse(node.iter if is_for else node.test)
         names = _stored_names(node.body + ([node.target] if is_for else []))
         names = [n for n in names if not n.startswith("__pyvc")]
+        RUNTIME.targets[lid] = tuple(_stored_names([node.target])) if is_for else ()
+        for extra in getattr(RUNTIME.contracts.get(lid), "also_modifies", ()):
+            if extra not in names:
+                names.append(extra)
         L = ast.Call(ast.Name("locals", ast.Load()), [], [])
         rt = lambda meth, *args: ast.Call(ast.Attribute(ast.Name("__pyvc__", ast.Load()), meth, ast.Load()), [ast.Constant(lid)] + list(args), [])
         it_name = "__pyvc_it_%d" % my
@@ -621,9 +741,11 @@ def cut_loops(target: str, loops: dict):
     return recompile(target, loops=loops)
 
 
-def recompile(target: str, loops: dict = None, lift_literals=False):
+def recompile(target: str, loops: dict = None, lift_literals=False, blocks: dict = None):
     """Recompile `target` from its current source with loop contracts and/or exact float literals.
     loops: {ordinal: (expected iterable/test text, LoopContract)}.
+    blocks: {text of an `if` test: BlockContract}: the body of that statement is replaced by the contract (every occurrence;
+    the anchor must occur exactly once unless the contract sets `many = True`).
     Returns the new function object (globals = the defining module's real dict, so World swaps apply)."""
     loops = loops or {}
     holder, name, fn = resolve(target)
@@ -637,8 +759,20 @@ def recompile(target: str, loops: dict = None, lift_literals=False):
         lid = "%s#%d" % (target, ordn)
         RUNTIME.contracts[lid] = contract
         wanted[ordn] = lid
+    bwanted = {}
+    for text, contract in (blocks or {}).items():
+        bid = "%s#if[%s]" % (target, text)
+        RUNTIME.contracts[bid] = contract
+        bwanted[text.replace(" ", "")] = bid
+    if bwanted:
+        bc = _BlockCutter(bwanted)
+        tree = bc.visit(tree)
     cutter = _Cutter(fdef.name, wanted)
     new = cutter.visit(tree)
+    for text, contract in (blocks or {}).items():
+        nfound = bc.blocks_found.get(text.replace(" ", ""), 0)
+        if nfound == 0 or (nfound > 1 and not getattr(contract, "many", False)):
+            raise Unmodelled("contract anchor %s: `if %s:` occurs %d times in %s" % ("not found" if nfound == 0 else "ambiguous", text, nfound, target))
     for ordn, (text, contract) in loops.items():
         if ordn not in cutter.found:
             raise Unmodelled("contract anchor not found: loop %d of %s" % (ordn, target))
